@@ -59,6 +59,8 @@ fn main() {
                 let rec = match spec["op"].as_str().unwrap_or("describe") {
                     "threads" => gens::threads(&spec),
                     "history" => gens::history(&spec),
+                    "churn" => gens::churn(&spec),
+                    "iter_api" => gens::iter_api(spec["bits"].as_u64().unwrap() as usize, spec["cap"].as_u64().unwrap() as usize),
                     _ => gens::describe(
                         spec["bits"].as_u64().unwrap() as usize,
                         spec["cap"].as_u64().unwrap() as usize,
